@@ -38,7 +38,7 @@ COUNTER = dns.name.from_text("counter", None)
 
 
 def shards(tier, seed):
-    mult = 1 if tier == "quick" else 12
+    mult = 1 if tier == "quick" else 48
     out = []
     for i in range(16):
         out.append({"n_random": 60 * mult, "n_pct": 40 * mult, "dfs": i < 4, "dfs_budget": 250 * mult, "dfs_variant": i, "stress": i == 15, "stress_txns": 300 * mult})
